@@ -303,3 +303,22 @@ ASSUMPTIONS = ASSUMPTIONS + [
 RULE = RULE + ("; history stream: sequences of 2-3 different well-formed TZif byte strings (same length / same instants with different offsets, abbreviations, "
                "isdst, type indices, flags; real pairs; random tables) written to the SAME path or name, rewritten in place or by os.replace with the mtime restored or advanced, "
                "loaded through 14 load kinds; a case = (sequence, load kind, step); audit: one case per audited site (not counted as non-trivial)")
+
+
+# --- translator tie for the LOAD PATHS (wt-tzfile): tz.tzfile.__init__ and zoneinfo.ZoneInfoFile.__init__ / get are re-translated on every
+# run (harness/translate_load.py -> Generated/TzLoadKernels.lean; C06.load_paths_equal in Properties/TzLoadGen.lean) and run by the driver ops
+# tzload.file / tzload.archive against the implementation (paths, named streams, BytesIO + filename=, None; archives with duplicates, hard and
+# symbolic links, a link overriding a regular member, METADATA, directory members)
+_correspondence_without_tzload = correspondence
+
+
+def correspondence(ctx):
+    _correspondence_without_tzload(ctx)
+    import tzhelplib
+    real, syn = zones_for(ctx)
+    tzhelplib.validate_load(ctx, [(n, d) for n, d, _ in real + syn])
+
+
+TRUSTED = TRUSTED + [
+    "translator tie for the load paths: harness/translate_load.py (LoadPy) re-translates tz.tzfile.__init__ and zoneinfo.ZoneInfoFile.__init__ / get from /repo on every run into Generated/TzLoadKernels.lean (the reader they call is the translated Gen.readTzfile); C06.load_paths_equal proves that a file name, an open stream, a regular archive member and a link member hand the same bytes to the reader and carry the same zone data (build r); named primitives (Model/LoadPy.lean), trusted with their documented meaning and exercised by tzload.file / tzload.archive on every run: open(path,'rb') as a partial function, a stream as its bytes + .name + repr, `with` / _nullcontext handing the stream through, TarFile members in archive order (regular / hard link / symbolic link / other) with extractfile and getmember, dict as last-binding-wins, json.loads as identity on the text, _set_tzdata copying every attribute",
+]
